@@ -169,6 +169,8 @@ def gen_plan(rng, tier, idx):
         plan.update(op=name, rank_in=RANK_IN[name], bc=rng.choice(BCS if RANK_IN[name] == 0 else BCS_TENSOR),
                     collection=bool(RANK_IN[name] == 0 and rng.random() < 0.0),
                     route=rng.choice(["field", "field", "backend", "both"]),
+                    # the operator object is used a second time with data of another dtype
+                    second_dtype=rng.random() < 0.4,
                     split_collection=rng.random() < 0.25, coll_ranks=[rng.choice([0, 0, 1, 2]) for _ in range(rng.randint(1, 3))])
     else:
         eqs = [{"cls": "DiffusionPDE", "diffusivity": rng.choice([1, 0.5])},
@@ -199,6 +201,10 @@ def gen_plan(rng, tier, idx):
         order = 4 if eq["cls"] == "CahnHilliardPDE" else 2
         plan.update(eq=eq, bc=rng.choice(BCS[:9] if not eq.get("vector") else BCS_TENSOR), steps=rng.randint(1, 5),
                     dt=min(1e-3, 0.02 * dx_min ** order), adaptive=rng.random() < 0.25, tracker_every=rng.choice([1, 2, None]))
+        if isinstance(plan["bc"], str) and cls in ("UnitGrid", "CartesianGrid", "CylindricalSymGrid") and rng.random() < 0.5:
+            # a persistent solver object: first used for a run on a grid that differs from the planned one in nothing but
+            # the periodicity of one axis, then for the planned run (boundary conditions given by name suit both grids)
+            plan["reuse_solver"] = {"axis": len(grid["shape"]) - 1 if cls == "CylindricalSymGrid" else rng.randrange(len(grid["shape"]))}
         if plan["tracker_every"] and rng.random() < 0.35:
             # fault: the tracker (which runs on the main rank only) requests a stop at its m-th call;
             # the client ranks are somewhere inside their stepping loop and have to be released
@@ -309,7 +315,18 @@ def _solve(plan, state, gspec, mpi: bool):
     kw = {"adaptive": bool(plan["adaptive"])}
     if plan["adaptive"]:
         kw["tolerance"] = 1e-3
-    if mpi:
+    if mpi and plan.get("reuse_solver"):
+        from pde.solvers import Controller, ExplicitMPISolver
+
+        solver = ExplicitMPISolver(eq, decomposition=plan["decomposition"], backend="auto", **kw)
+        g2 = copy.deepcopy(gspec)
+        g2["periodic"][plan["reuse_solver"]["axis"]] = not g2["periodic"][plan["reuse_solver"]["axis"]]
+        other = _state(plan, _build_grid(g2))
+        Controller(solver, t_range=plan["dt"], tracker=None).run(other, plan["dt"])  # first use of the solver object
+        ctrl = Controller(solver, t_range=plan["steps"] * plan["dt"], tracker=trackers or None)
+        res = ctrl.run(state, plan["dt"])
+        info = ctrl.diagnostics
+    elif mpi:
         res, info = eq.solve(state, t_range=plan["steps"] * plan["dt"], dt=plan["dt"], solver="explicit_mpi", tracker=trackers or None,
                              decomposition=plan["decomposition"], ret_info=True, **kw)
     else:
@@ -348,6 +365,10 @@ def _rank_program(rank, size, plan):
         backend = get_backend("numba_mpi")
         oper = sub.grid.make_operator(plan["op"], bc, backend=backend)
         out["backend"] = mesh.combine_field_data_mpi(np.array(oper(np.array(sub.data, copy=True)), copy=True))
+        if plan.get("second_dtype"):
+            other = "float" if plan["dtype"] == "complex" else "complex"
+            sub2 = mesh.split_field_mpi(_field({**plan, "dtype": other, "field_seed": plan["field_seed"] + 101}, grid, plan["rank_in"]))
+            out["backend_second_dtype"] = mesh.combine_field_data_mpi(np.array(oper(np.array(sub2.data, copy=True)), copy=True))
         # the sender/setter chain NumbaMPIBackend generates for compiled code, executed in python mode: all ghost
         # cells are poisoned first, so every one of them has to come from a neighbour or from the boundary condition
         bcs = sub.grid.get_boundary_conditions(bc, rank=plan["rank_in"])
@@ -537,6 +558,10 @@ def execute(plan):
         else:
             f = _field(plan, grid, plan["rank_in"])
             ref["op"] = np.array(f.apply_operator(plan["op"], _bc(plan["bc"], gspec)).data, copy=True)
+            if plan.get("second_dtype"):
+                other = "float" if plan["dtype"] == "complex" else "complex"
+                f2 = _field({**plan, "dtype": other, "field_seed": plan["field_seed"] + 101}, grid, plan["rank_in"])
+                ref["op_second_dtype"] = np.array(f2.apply_operator(plan["op"], _bc(plan["bc"], gspec)).data, copy=True)
             probe("script_operator")
             if plan["rank_in"]:
                 probe("vector_or_tensor_field")
@@ -634,6 +659,8 @@ def execute(plan):
                 probe("collection_state")
             if plan["eq"].get("vector"):
                 probe("vector_or_tensor_field")
+            if plan.get("reuse_solver"):
+                probe("solver_object_reused_on_other_periodicity")
             if "numba_mpi" not in r0["backend"]:
                 fail("C17/wrong-backend", f"explicit_mpi selected backend {r0['backend']!r}")
             if plan.get("stop"):
@@ -652,6 +679,12 @@ def execute(plan):
                 fail("C17/solve-differs-from-serial", f"{plan['eq']} bc={plan['bc']} on {gspec} split {plan['decomposition']}: final state differs from the "
                      f"serial run by {d:.3e} after {ref['steps']} steps (adaptive={plan['adaptive']})")
     else:
+        if r0.get("backend_second_dtype") is not None:
+            probe("operator_reused_with_other_dtype")
+            if not same(r0["backend_second_dtype"], ref["op_second_dtype"]):
+                fail("C17/operator-differs-from-serial", f"{plan['op']} bc={plan['bc']} on {gspec} split {plan['decomposition']}: the numba_mpi operator object, "
+                     f"used first with {plan['dtype']} data and then with data of the other dtype, gives a second result that differs from the "
+                     "undivided grid", key="C17/operator-differs-from-serial/backend-second-dtype")
         for route in ("field", "backend", "setter"):
             if route in r0 and r0[route] is not None and not same(r0[route], ref["op"]):
                 d = float(np.nanmax(np.abs(r0[route] - ref["op"]))) if r0[route].shape == ref["op"].shape else float("nan")
@@ -717,6 +750,8 @@ def simplify(plan):
             yield variant(lambda p: p.update(adaptive=False))
         if plan.get("stop"):
             yield variant(lambda p: p.pop("stop"))
+        if plan.get("reuse_solver"):
+            yield variant(lambda p: p.pop("reuse_solver"))
         if plan["tracker_every"] and not plan.get("stop"):
             yield variant(lambda p: p.update(tracker_every=None))
         if plan["eq"]["cls"] != "DiffusionPDE":
@@ -724,5 +759,7 @@ def simplify(plan):
     else:
         if plan.get("split_collection"):
             yield variant(lambda p: p.update(split_collection=False))
+        if plan.get("second_dtype"):
+            yield variant(lambda p: p.update(second_dtype=False))
         if plan["route"] != "field":
             yield variant(lambda p: p.update(route="field"))
